@@ -404,9 +404,11 @@ struct Lower {
     }
     if (auto* X = dyn_cast<CastExpr>(E)) return lowerCast(X);
     if (auto* X = dyn_cast<CXXNewExpr>(E)) {
-      if (X->getNumPlacementArgs() != 1) throw Unsupported{"non-placement new"};
-      std::string p = ex(X->getPlacementArg(0));
+      if (X->isArray()) throw Unsupported{"array new"};
+      if (X->getNumPlacementArgs() > 1) throw Unsupported{"placement new with several placement arguments"};
       QualType T = X->getAllocatedType();
+      // plain `new T(args)`: storage from operator new (never null, fresh), then the constructor clang selected
+      std::string p = X->getNumPlacementArgs() == 1 ? ex(X->getPlacementArg(0)) : "__ipr_alloc(sizeof(" + declareAbstract(T) + "))";
       if (T->isRecordType()) {
         auto* CE = X->getConstructExpr();
         if (!CE) throw Unsupported{"placement new without construct expr"};
